@@ -208,7 +208,7 @@ class bicgstab {
 
                 preconditioner::spmv(prm.pside, P, A, *p, *v, *T);
 
-                alpha = rho1 / inner_product(*rh, *v);
+                alpha = rho1 / inner_product(*v, *rh);
 
                 if (prm.pside == side::left) {
                     backend::axpby(alpha, *p, one, x);
@@ -221,7 +221,7 @@ class bicgstab {
                 if ((res = norm(*s)) > eps) {
                     preconditioner::spmv(prm.pside, P, A, *s, *t, *T);
 
-                    omega = inner_product(*t, *s) / inner_product(*t, *t);
+                    omega = inner_product(*s, *t) / inner_product(*t, *t);
 
                     precondition(!math::is_zero(omega), "Zero omega in BiCGStab");
 
